@@ -214,6 +214,8 @@ class FuncTranslator:
             elif isinstance(e.func, ast.Attribute) and isinstance(e.func.value, ast.Name) \
                     and e.func.value.id == "math":
                 fname = "math." + e.func.attr
+            if fname in getattr(self, "holes", {}):
+                return self.holes[fname]
             if e.keywords:
                 raise Unsupported("keyword args at %s" % _loc(e))
             args = [self.expr(x, env) for x in e.args]
@@ -292,10 +294,27 @@ class FuncTranslator:
         s, rest = stmts[0], stmts[1:]
         if isinstance(s, ast.Expr) and isinstance(s.value, ast.Constant) and isinstance(s.value.value, str):
             return self.block(rest, env, rtype_box, tail)
-        if isinstance(s, (ast.For, ast.While)) and self.stop_at_loop:
+        if isinstance(s, ast.Expr) and isinstance(s.value, ast.Call) and isinstance(s.value.func, ast.Attribute) \
+                and isinstance(s.value.func.value, ast.Name) and s.value.func.value.id in ("log", "logger", "logging"):
+            return self.block(rest, env, rtype_box, tail)          # logging has no effect on the value
+        is_effect = (isinstance(s, (ast.For, ast.While))
+                     or (self.stop_at_effect and isinstance(s, ast.Expr) and isinstance(s.value, ast.Call))
+                     or (self.stop_at_effect and isinstance(s, ast.Assign) and len(s.targets) == 1
+                         and isinstance(s.targets[0], ast.Attribute)))
+        if is_effect and (self.stop_at_loop or self.stop_at_effect):
             parts = [env[n] for n in self.returns]
+            if len(parts) == 1:
+                rtype_box.append(parts[0][1])
+                return parts[0][0]
             rtype_box.append(T(*[p[1] for p in parts]))
             return "(" + ", ".join(p[0] for p in parts) + ")"
+        if isinstance(s, ast.If):
+            ia = self.if_assign(s, env)
+            if ia is not None:
+                name, txt, t = ia
+                env2 = dict(env)
+                env2[name] = (name, t)
+                return "let %s := %s in\n  %s" % (name, txt, self.block(rest, env2, rtype_box, tail))
         if isinstance(s, ast.Assign) and len(s.targets) == 1:
             v, tv = self.expr(s.value, env)
             pat, env2 = self.bind(s.targets[0], v, tv, env)
@@ -329,6 +348,41 @@ class FuncTranslator:
             return "(if %s then %s else %s)" % (c, a, b)
         raise Unsupported("statement %s at %s" % (type(s).__name__, _loc(s)))
 
+    def if_assign(self, s, env):
+        """`if c: x = e1 / elif ..: x = e2 / else: x = e3` (every branch a single assignment to the same name)
+        -> (name, conditional expression text, type); None when the statement has another shape."""
+        def single(body):
+            if len(body) == 1 and isinstance(body[0], ast.Assign) and len(body[0].targets) == 1 \
+                    and isinstance(body[0].targets[0], ast.Name):
+                return body[0].targets[0].id, body[0].value
+            return None
+        a = single(s.body)
+        if a is None or not s.orelse:
+            return None
+        name, val = a
+        want = self.local_types.get(name)
+        c, tc = self.expr(s.test, env)
+        if tc != B:
+            return None
+        v, tv = self.expr(val, env)
+        if want is not None:
+            v, tv = self.coerce_t(v, tv, want, s), want
+        if len(s.orelse) == 1 and isinstance(s.orelse[0], ast.If):
+            rest = self.if_assign(s.orelse[0], env)
+            if rest is None or rest[0] != name:
+                return None
+            w, tw = rest[1], rest[2]
+        else:
+            b = single(s.orelse)
+            if b is None or b[0] != name:
+                return None
+            w, tw = self.expr(b[1], env)
+            if want is not None:
+                w, tw = self.coerce_t(w, tw, want, s), want
+        if tv != tw:
+            raise Unsupported("branch types differ for %s at %s: %r %r" % (name, _loc(s), tv, tw))
+        return name, "(if %s then %s else %s)" % (c, v, w), tv
+
     def no_flow(self, s):
         def f(env):
             raise Unsupported("branch must end in return at %s" % _loc(s))
@@ -344,9 +398,12 @@ class FuncTranslator:
             return self.ends_in_return(last.body) and self.ends_in_return(last.orelse)
         return False
 
-    def function(self, src, qualname, coqname=None, param_types=None, stop_at_loop=False, returns=None):
+    def function(self, src, qualname, coqname=None, param_types=None, stop_at_loop=False, returns=None,
+                 stop_at_effect=False, local_types=None):
         self.src = src
         self.stop_at_loop = stop_at_loop
+        self.stop_at_effect = stop_at_effect
+        self.local_types = local_types or {}
         self.returns = returns or []
         fn = find_def(self.tree, qualname)
         if not isinstance(fn, ast.FunctionDef):
@@ -382,12 +439,35 @@ class FuncTranslator:
         return text
 
 
-def gen_module(py_path, items, records=None, header=""):
+def gen_assign_expr(ft, src, qualname, target, coqname, params, holes):
+    """Definition coqname (params) := <RHS of the assignment to `target` (e.g. 'self.rotate') inside qualname>, where a
+    call of a function named in `holes` stands for the parameter {fname: (param, type)}."""
+    fn = find_def(ft.tree, qualname)
+    hit = None
+    for node in ast.walk(fn):
+        if isinstance(node, ast.Assign) and len(node.targets) == 1 and ast.unparse(node.targets[0]) == target:
+            if hit is not None:
+                raise Unsupported("%s assigned twice in %s" % (target, qualname))
+            hit = node
+    if hit is None:
+        raise Unsupported("no assignment to %s in %s" % (target, qualname))
+    ft.src = src
+    ft.holes = {k: v for k, v in holes.items()}
+    ft.stop_at_loop = ft.stop_at_effect = False
+    ft.local_types = {}
+    env = {n: (n, t) for n, t in params}
+    txt, t = ft.expr(hit.value, env)
+    ft.holes = {}
+    ptxt = " ".join("(%s : %s)" % (n, coq_type(tt, ft.records)) for n, tt in params)
+    return "Definition %s (o : NumOps R) %s : %s :=\n  %s.\n" % (coqname, ptxt, coq_type(t, ft.records), txt)
+
+
+def gen_module(py_path, items, records=None, header="", known=None):
     """items: list of dicts(qualname=..., coqname=?, param_types=?, stop_at_loop=?, returns=?)"""
     src = open(py_path, encoding="utf-8").read()
     tree = ast.parse(src)
     records = records or {}
-    ft = FuncTranslator(tree, {}, records)
+    ft = FuncTranslator(tree, dict(known or {}), records)
     out = ["(* GENERATED by translator/py2coq.py from %s -- do not edit *)" % os.path.basename(py_path),
            "From Coq Require Import ZArith Bool.", "From PdfV Require Import Base.Num.", header,
            "Section Gen.", "Context {R : Type}.", ""]
@@ -395,7 +475,11 @@ def gen_module(py_path, items, records=None, header=""):
         out.append("Record %s := mk%s { %s }." % (
             rn, rn, "; ".join("%s_%s : %s" % (rn, f, coq_type(t, records)) for f, t in flds.items())))
     for it in items:
-        out.append(ft.function(src, **it))
+        if "assign_target" in it:
+            out.append(gen_assign_expr(ft, src, it["qualname"], it["assign_target"], it["coqname"],
+                                       it["params"], it.get("holes", {})))
+        else:
+            out.append(ft.function(src, **it))
     out.append("End Gen.")
     return "\n".join(out) + "\n"
 
